@@ -716,7 +716,23 @@ def check_C07(tier):
 # C08 - the decoder is total and terminates
 # --------------------------------------------------------------------------
 
-FUZZ_CHARS = list("[]..CNOH=#@+-123/\\xBranchRingepsilo_ ") + ["é", "²", "٣", "½", " ", "€"]
+FUZZ_CHARS = list("[]..CNOH=#@+-123/\\xBranchRingepsilo_ {}%") + ["é", "²", "٣", "½", " ", "€", "{}", "{0}", "%s", "{x}"]
+# text that means something to str.format / % / templates, inside and outside brackets
+FORMAT_TEXT = ["[C][{}]", "[C][{x}][O]", "[C][C{]", "[C][}]", "[C].[N][{0.real}]", "[%s]", "[C][%(x)s]", "[C][%d][C]", "[{0}]",
+               "[C][{0}{1}]", "[C][{{}}]", "[C][{!r}]", "[C][{:>10}]", "[$x]", "[C][\\N]", "[C][\\x41]", "{}", "[C]{}", "%s[C]",
+               "[C][{selfies}]", "[C][{symbol}]", "[C][{0[0]}]", "[Branch1][{}]", "[C][Ring1][{}]", "[C][=Branch1][{x}][C]"]
+
+
+def big_number_selfies():
+    out = []
+    fields = ["[%sC]", "[CH%s]", "[C+%s]", "[C-%s]", "[=N+%s]", "[13C@H%s]", "[#C-%s]"]
+    ctxs = ["%s", "[C]%s[C]", "[C][=C]%s", "[C][C]%s[Ring1][Ring1]", "[C][Branch1][C]%s[C]", "[C][Branch1]%s[C][C]", "[O].%s"]
+    for tmpl in fields:
+        for nd in (20, 310, 400, 4299, 4301, 5000):
+            for dig in ("9", "1"):
+                for c in ctxs:
+                    out.append(("%s with %d digits in %s" % (tmpl % "N", nd, c % "X"), c % (tmpl % (dig * nd))))
+    return out
 
 
 def check_C08(tier):
@@ -799,6 +815,7 @@ def check_C08(tier):
             p = rng.randint(0, len(s))
             s = s[:p] + rng.choice(FUZZ_CHARS) + s[p + rng.randint(0, 1):]
         fuzz.append(s)
+    fuzz += FORMAT_TEXT
     recs = []
     for s in fuzz:
         for msg, k in totality(s):
@@ -822,7 +839,11 @@ def check_C08(tier):
            ("charge 5000 digits", "[C+" + "1" * 5000 + "]"),
            ("nesting 1200", "".join(gens.deep_branches(1200))),
            ("nesting 6000", "".join(gens.deep_branches(6000)))]
-    for what, s in big:
+    bn = big_number_selfies()
+    if quick:
+        bn = bn[seed() % 2::2]
+    rep.notes["big_number_inputs"] = len(bn)
+    for what, s in big + bn:
         for msg, k in totality(s, budget=200.0):
             f = [x for x in rep.findings if x.get("signature") == "decoder:nesting-deeper-than-recursion-limit"]
             if k == "RecursionError" and what.startswith("nesting") and f:
